@@ -33,5 +33,11 @@ func Registry() []*Spec {
 		Quick: map[string]int{"B": 4, "STEP": 2}, Thorough: map[string]int{"FULL": 1, "B": 6, "STEP": 3},
 		Covers: []string{"nonempty", "empty"}, UnitDepth: 5,
 		Note: "Has, First, FirstFound, Locate (+Get of each located path), Expr.Walk, GetNodes/FirstNode and Get on alt.Generify(data) against Get on the simple data; same data x path space as C05, paths not ending in a bare descent"})
+	// ---- C13: mutations touch exactly the selected locations
+	add(Spec{Property: "C13", Name: "VerifC13_Mutate", Pkg: "jp",
+		Quick: map[string]int{"B": 3, "STEP": 2, "NTHB": 4, "NSHAPES": 4}, Thorough: map[string]int{"B": 5, "STEP": 3, "NTHB": 6},
+		Covers: []string{"changed", "nothing-selected", "error"}, UnitDepth: 6,
+		AllowUnsupported: []string{"formatted (fmt) string", "(reflect.Value)."},
+		Note: "Set/SetOne/Del/DelOne/Remove/RemoveOne/Modify/ModifyOne vs reference mutations (vref.SetAll/RemoveAll) applied at the locations of the reference selector; frame condition = whole-tree equality with the reference result; overlapping selections (descent) skipped; Set creating new members not asserted; error => data unchanged"})
 	return r
 }
